@@ -500,66 +500,48 @@ def lcs(a, b):
 
 def check_packer(ctx):
     """SamplingMethod.pack_p_sys(stage, pv, signals), when present, is the one place that merges the stacked parameters/variables
-    with the sampled signals.  Verified here: the split point of pv is the size of the non-bspline parameter kinds of Stage.p, the
-    signal rows are classified by each signal's own `parametric` flag with a running offset over ALL signals in registration
-    order, and the result is [pv[:n_p], parameter-signal rows, pv[n_p:], variable-signal rows].  Returns True when the packer
-    exists (and was checked), False when the code still appends the signals at the end."""
+    with the sampled signals.  It is *run* by the simulator (rkverif/sim.py) on a stage with parameters of every kind (sizes 2, 1, 3
+    and a B-spline parameter of size 2), variables, and four signals registered in the order variable(1), parameter(2),
+    variable(3), parameter(1); pv and signals are matrices known by their row labels.  The packed rows must come out in the layout of
+    vertcat(stage.p, stage.v): parameters, parameter signals, variables, variable signals - whatever statement form computes it.
+    Returns True when the packer exists (and was checked), False when the code still appends the signals at the end."""
     P = ctx.prog
     if "pack_p_sys" not in P.cls("SamplingMethod").methods:
         return False
+    from ..sim import Sim, RowMat, h_vertcat, fresh_obj
+    from ..layout import Sym, Obj, LayoutUnknown
     f = P.own_method("SamplingMethod", "pack_p_sys")
-    sc = ctx.scope(f)
-    st, pv, sg = f.params[1], f.params[2], f.params[3]
-    K = lambda t: Norm(None).key(ast.parse(t, mode="eval").body)
-    # n_p
     want_kinds = [k_.split(":", 1)[1] for k_ in stage_pack_sequence(ctx) if k_.startswith("P:") and k_ != "P:bspline"]
-    npd = [d for d in sc.defs.get("n_p", []) if d.kind == "assign"]
-    ok = False
-    found = ast.unparse(npd[0].value) if npd else None
-    if len(npd) == 1 and is_call_to(npd[0].value, "sum") and npd[0].value.args and isinstance(npd[0].value.args[0], ast.GeneratorExp):
-        g = npd[0].value.args[0]
-        if len(g.generators) == 2 and isinstance(g.generators[0].iter, (ast.List, ast.Tuple)) and all(isinstance(e, ast.Constant) for e in g.generators[0].iter.elts):
-            kinds = [e.value for e in g.generators[0].iter.elts]
-            gv = ast.unparse(g.generators[0].target)
-            ev = ast.unparse(g.generators[1].target)
-            ok = sorted(kinds) == sorted(want_kinds) and len(kinds) == len(set(kinds)) and ast.unparse(g.generators[1].iter) == "%s.parameters[%s]" % (st, gv) \
-                and ast.unparse(g.elt) in ("%s.numel()" % ev, "%s.nnz()" % ev) and not g.generators[0].ifs and not g.generators[1].ifs
-    ctx.check(ok, "pack_p_sys split point = size of the non-bspline parameters", detail="parameter/variable boundary of the stacked vector", expected="n_p = sum(p.numel() for grid in %s for p in stage.parameters[grid])" % want_kinds, found=found, fi=f)
-    # classification loop
-    loops = [l for l in walk_no_nested(f.node) if isinstance(l, ast.For)]
-    ok = len(loops) == 1 and ast.unparse(loops[0].iter) == "self.signals.values()" and isinstance(loops[0].target, ast.Name)
-    found = ast.unparse(loops[0].iter) if loops else None
-    if ok:
-        e = loops[0].target.id
-        body = loops[0].body
-        nd = [b for b in body if isinstance(b, ast.Assign) and ast.unparse(b.targets[0]) == "n"]
-        adv = [b for b in body if isinstance(b, ast.AugAssign) and ast.unparse(b.target) == "offset" and isinstance(b.op, ast.Add) and ast.unparse(b.value) == "n"]
-        ext = [b for b in body if isinstance(b, ast.Expr) and isinstance(b.value, ast.Call) and isinstance(b.value.func, ast.Attribute) and b.value.func.attr == "extend"]
-        init = [d for d in sc.defs.get("offset", []) if d.kind == "assign"]
-        ok = len(nd) == 1 and ast.unparse(nd[0].value) in ("%s.coeff.shape[0]" % e, "%s.coeff.size1()" % e) and len(adv) == 1 and len(ext) == 1 and len(body) == 3 \
-            and len(init) == 1 and ast.unparse(init[0].value) == "0" and body.index(adv[0]) > body.index(ext[0]) > body.index(nd[0])
-        if ok:
-            c = ext[0].value
-            ok = Norm(None).key(c.func.value) == K("rows_p if %s.parametric else rows_v" % e) and Norm(None).key(c.args[0]) == K("range(offset, offset+n)")
-        found = "; ".join(ast.unparse(b)[:70] for b in body)
-    ctx.check(ok, "pack_p_sys classifies the rows of every signal by the signal's own parametric flag", detail="rows of a signal attributed to the wrong family (or offsets not advanced for every signal)",
-              expected="for e in self.signals.values(): n = e.coeff.shape[0]; (rows_p if e.parametric else rows_v).extend(range(offset, offset+n)); offset += n", found=found, fi=f)
-    rets = [r for r in walk_no_nested(f.node) if isinstance(r, ast.Return) and r.value is not None]
-    full = K("vertcat({pv}[:n_p,:], {sg}[rows_p,:], {pv}[n_p:,:], {sg}[rows_v,:])".format(pv=pv, sg=sg))
-    short = K("vertcat(%s, %s)" % (pv, sg))
-    ok = True
-    seen_full = False
-    for r in rets:
-        kk = Norm(None).key(r.value)
-        if kk == full:
-            seen_full = True
-        elif kk == short:
-            gs = [(ast.unparse(t), pol) for t, pol in sc.path_guards(r)]
-            ok = ok and gs in ([("rows_p", False)], [("not rows_p", True)], [("len(rows_p) == 0", True)])
-        else:
-            ok = False
-    ctx.check(ok and seen_full, "pack_p_sys returns [pv[:n_p], parameter signals, pv[n_p:], variable signals]", detail="layout of the packed vector", expected="vertcat(pv[:n_p,:], signals[rows_p,:], pv[n_p:,:], signals[rows_v,:]) (shortcut vertcat(pv, signals) only without parameter signals)",
-              found="; ".join(ast.unparse(r.value)[:90] for r in rets), fi=f)
+
+    def par(n):
+        return fresh_obj("par", n=n)
+    scenarios = []
+    for sig_order in ([("v", 1), ("p", 2), ("v", 3), ("p", 1)], [("v", 2), ("v", 1)], [("p", 1), ("v", 1)], []):
+        sizes = {"": [2], "control": [1], "control+": [3, 1], "bspline": [s_ for k_, s_ in sig_order if k_ == "p"]}
+        n_p = sum(sum(v) for g, v in sizes.items() if g in want_kinds)
+        nv = 4
+        pv = RowMat(["P%d" % i for i in range(n_p)] + ["V%d" % i for i in range(nv)])
+        sig_rows, sigs = [], {}
+        for idx, (kind, size) in enumerate(sig_order):
+            sigs[("sig", idx)] = fresh_obj("sig%d" % idx, parametric=(kind == "p"), coeff=fresh_obj("coeff", shape=(size, 7)), sampled=Sym("sampled", idx))
+            sig_rows += ["S%d%s%d" % (idx, kind, r) for r in range(size)]
+        stage = fresh_obj("stage", parameters={g: [par(n) for n in v] for g, v in sizes.items()}, variables={"": [par(4)], "control": [], "control+": [], "bspline": [par(s_) for k_, s_ in sig_order if k_ == "v"]})
+        me = fresh_obj("self", signals=sigs)
+        want = [r for r in pv if r.startswith("P")] + [r for r in sig_rows if "p" in r[2:3]] + [r for r in pv if r.startswith("V")] + [r for r in sig_rows if "v" in r[2:3]]
+        scenarios.append((sig_order, me, stage, pv, RowMat(sig_rows), want))
+    hooks = {"vertcat": h_vertcat, "ca.vertcat": h_vertcat, "vcat": lambda s_, r, a, k, n: h_vertcat(s_, r, a[0] if a and isinstance(a[0], list) and not isinstance(a[0], RowMat) else a, k, n),
+             ".numel": lambda s_, r, a, k, n: r.attrs["n"] if isinstance(r, Obj) and "n" in r.attrs else NotImplemented,
+             ".nnz": lambda s_, r, a, k, n: r.attrs["n"] if isinstance(r, Obj) and "n" in r.attrs else NotImplemented,
+             ".size1": lambda s_, r, a, k, n: r.attrs["shape"][0] if isinstance(r, Obj) and "shape" in r.attrs else NotImplemented}
+    bad = []
+    for sig_order, me, stage, pv, sg, want in scenarios:
+        try:
+            out = Sim(P, hooks=hooks).call(f, [me, stage, pv, sg], {})
+        except LayoutUnknown as e:
+            raise AnalysisError("pack_p_sys could not be simulated: %s" % e)
+        got = list(out) if isinstance(out, RowMat) else None
+        ctx.check(got == want, "pack_p_sys lays the rows out as vertcat(stage.p, stage.v) expects (signals registered as %s)" % ("".join(k for k, _ in sig_order) or "none"),
+                  detail="a parameter / variable / B-spline signal row lands in the slot of another symbol", expected=want, found=got if got is not None else str(out)[:120], fi=f, sample={"signals": str(sig_order)})
     return True
 
 
